@@ -187,6 +187,11 @@ class LuaGen:
             body = bytearray()
             for _ in range(rng.randrange(0, 10)):
                 body.append(rng.choice(b'ab ]=[\n"\\x1') if rng.random() < 0.8 else rng.randrange(256))
+            if rng.random() < 0.3:
+                # a line inside the string that BEGINS like something the cart formats give a meaning to at line start (but is not it)
+                body += b'\n' + rng.choice([b'__index__ is', b'__gfx__x', b'__x__ y', b'__lua', b'_lua__', b'#include foo', b'-->9',
+                                            b'version 8', b'pico-8 cartridge', b'__lua__ ', b'::c::', b':c:']) + rng.choice([b'', b'\n', b' z'])
+                self.feat('longstr-lookalike-line')
             body = bytes(body)
             close = b']' + eq + b']'
             while close in body or (body + b']').endswith(close[:-1] + b']') and False:
